@@ -375,6 +375,7 @@ def run_C03(ctx, R):
 def run_C07(ctx, R):
     from .rules import own, tree, lst
     _per_config(ctx, R, own.own5)
+    _per_config(ctx, R, own.del1)
     _per_config(ctx, R, own.own6)
     _per_config(ctx, R, own.own4_dangling)
     _per_config(ctx, R, _own_cjson)
@@ -473,6 +474,9 @@ PROPERTIES = {
     'C07': {
         'run': run_C07, 'modules': ['own', 'tree', 'utils'],
         'explanation':
+            "DEL1: cJSON_Delete followed path by path for all 32 combinations of the two ownership bits and the three payload "
+            "pointers: it releases the child chain and the value string unless the node is a reference, the key unless it is "
+            "constant, the node itself always and last, and reads nothing of the node afterwards. "
             "OWN5: every release of valuestring / child / string of a node in cJSON.c is reachable only through the clear edge of "
             "a test of the ownership bit that describes that memory, on the same node, with no store to that node's type "
             "between entry and the test. OWN6: the key parameter is not read after the item's own key was released (the key "
